@@ -79,8 +79,29 @@ def binding_selftest():
                 return i + 1
         raise ToolError("selftest: no decl with a rename")
 
+    def wrong_slot(ls):
+        # iterators are told apart by their slot: a constructor recorded for another slot leaves the operations that follow
+        # without an iterator -- not a possible recording
+        for i, l in enumerate(ls):
+            if '"ev":"it_new"' in l and '"slot":1' in l:
+                ls[i] = l.replace('"slot":1', '"slot":2', 1)
+                return i + 1
+        raise ToolError("selftest: no constructor on slot 1")
+
     ok = (run_mut("corrupt_field", corrupt_field) & run_mut("drop_event", drop_event) & run_mut("shift_disc", shift_disc)
-          & run_mut("change_rename", change_rename))
+          & run_mut("change_rename", change_rename) & run_mut("wrong_slot", wrong_slot))
+    # the replay path: a recorded case (source + script) is rebuilt alone, re-recorded and judged again
+    import check, replay
+    b = next(b for b in meta["bins"] if any(c["id"] not in failed for c in b["cases"]))
+    c = next(c for c in b["cases"] if c["id"] not in failed)
+    res = {"cases": {str(c["id"]): {"src": [os.path.join(crate, b["src"] + ".orig"), c["start"], c["end"]],
+                                    "script": os.path.join(crate, b["script"]), "label": c["label"]}}}
+    rpath = os.path.join(d, "replay.json")
+    json.dump({"property": "C06", "engine": "rt", "case": c["id"], "why": "abs", "rust": check.case_source(res, c["id"]), "rust_lib": None,
+               "script": check.case_script(res, c["id"]), "edition": "2021"}, open(rpath, "w"))
+    report["replay_of_a_clean_case"] = "not reproduced" if replay.run("C06", rpath) == 0 else "VIOLATION"
+    # (the outcome is reported, not demanded: on a tree with a defect the case may really violate the contract; what is
+    #  tested here is that the replay path runs)
     report["ok"] = bool(ok)
     json.dump(report, open(os.path.join(WORK, "selftest.json"), "w"), indent=1)
     log("binding self-test:", json.dumps(report))
